@@ -191,7 +191,12 @@ func documentCases(w *world, thorough bool) []Case {
 	var out []Case
 	for _, kind := range []string{"oci-policy", "blob-policy", "signingkeys", "config", "crl-cache"} {
 		doc := w.Docs[kind]
-		for _, m := range append(nodeMutations(doc, ""), truncations(doc, "", 1)...) {
+		var extra func(string) []member
+		if kind == "oci-policy" || kind == "blob-policy" {
+			extra = policyInsertions
+		}
+		ms := append(nodeMutations(doc, ""), insertionMutations(doc, "", extra)...)
+		for _, m := range append(ms, truncations(doc, "", 1)...) {
 			out = append(out, Case{Family: "json-node", Kind: kind, Label: m.Label, Class: m.Class, Input: m.Bytes})
 		}
 		if thorough {
@@ -231,7 +236,7 @@ func layoutCases(w *world, thorough bool) []Case {
 				out = append(out, c)
 			}
 		}
-		for _, m := range append(nodeMutations(doc, ""), truncations(doc, "", 1)...) {
+		for _, m := range append(append(nodeMutations(doc, ""), insertionMutations(doc, "", nil)...), truncations(doc, "", 1)...) {
 			out = append(out, Case{Family: "oci-layout", Kind: kind, Label: m.Label, Class: m.Class, Input: m.Bytes, Variant: "consistent"})
 			if kind != "index.json" && m.Op != "trunc" {
 				out = append(out, Case{Family: "oci-layout", Kind: kind, Label: m.Label + "/stale-digest", Class: m.Class, Input: m.Bytes, Variant: "stale-digest"})
@@ -251,7 +256,7 @@ func pluginCases(w *world, thorough bool) []Case {
 	}
 	for _, cmd := range protoCommands {
 		doc := []byte(w.PluginOut[cmd])
-		for _, m := range append(nodeMutations(doc, ""), truncations(doc, "", step)...) {
+		for _, m := range append(append(nodeMutations(doc, ""), insertionMutations(doc, "", nil)...), truncations(doc, "", step)...) {
 			out = append(out, Case{Family: "plugin-output", Kind: cmd, Label: m.Label, Class: m.Class, Input: m.Bytes, Variant: "stdout", Entries: []string{"direct", "composite"}})
 		}
 		doc = []byte(w.PluginOut["stderr"])
